@@ -111,8 +111,19 @@ def build_corpus(tier, rng):
         Variant("Metre", "unit", [], [props([("si", ("s", "m")), ("SI", ("s", "metre")), ("Si", ("i", 1))]), aci(True, explicit=False)]),
         Variant("Second", "unit", [], [props([("si", ("s", "s")), ("ok", ("b", True))])]),
         Variant("Kelvin", "tuple", [Field("u8")], [props([("OK", ("b", False)), ("ok", ("i", 3))])])], metas=[EM("aci")])))
-    for fam, it in items:
+    # guided search: every key literal the REAL generated getters compare with becomes a probe key (an arm the model does not predict is
+    # then exercised behaviourally, not only noted as a structural difference)
+    import re
+    real = [] if G.NO_PROBE else G.real_structure(ID, [it for _, it in items], derive="EnumProperty")
+    GUIDED["definitions"] = sum(1 for r in real if r and r.startswith("str="))
+    for (fam, it), summary in zip(items, real or [None] * len(items)):
         k = c.add_def(it, family=fam, derives=["EnumProperty"])
+        real_keys = set()
+        for h in re.findall(r"[{,]x([0-9a-f]*)=", summary or ""):
+            try:
+                real_keys.add(bytes.fromhex(h).decode("utf-8"))
+            except (ValueError, UnicodeDecodeError):
+                pass
         keys = set()
         for v in it.variants:
             for m in v.metas:
@@ -123,6 +134,9 @@ def build_corpus(tier, rng):
         for kk in list(keys):
             probe.update([kk.upper(), kk.lower(), kk + "x", kk[:-1], kk.replace("r#", "")])
         probe.update(["", "nope", "é", "prop"])
+        GUIDED["keys_only_in_real_code"] += len(real_keys - probe)
+        probe.update(real_keys)
+        c.add_q(k, "struct", ["EnumProperty"], note="structure")
         for j, (i, _, tag) in enumerate(T.RR.sample_values(it)):
             if tag == "default":
                 continue
@@ -131,9 +145,33 @@ def build_corpus(tier, rng):
     return c
 
 
+GUIDED = {"definitions": 0, "keys_only_in_real_code": 0}
+
+
+def crate_configs(tier):
+    return [{"name": "c15"}, {"name": "c15probe", "kind": "genprobe"}]
+
+
+def query_in_config(cfg, kind, args):
+    return (kind == "struct") == (cfg.get("kind") == "genprobe")
+
+
+probe_command = S.struct_probe_command
+
+
+def extra_coverage(corpus, tier):
+    d = S.struct_coverage()
+    d["structural_tie"]["what"] += ("; EnumProperty: the three getters as tables variant -> [(key literal, value literal)] with their inner and outer wildcards "
+                                    "(identical => C15_get speaks about the real code for EVERY key string, not only the sampled ones)")
+    d["structural_tie"]["guided_search"] = dict(GUIDED, what="key literals read from the real generated code, asked through all three getters")
+    return d
+
+
 def render_def(k, it, meta, cfg):
     return T.render_structs(k, it, meta, cfg)
 
 
 def compare(corpus, k, kind, args, note, iobs, mobs, cfg):
+    if kind == "struct":
+        return S.compare_struct(corpus, k, iobs, mobs)
     return iobs == mobs, True, None
